@@ -716,6 +716,14 @@ def eigen_spectrum(draw, N):
 
 @st.composite
 def eig_transform(draw, N):
+    if N >= 2 and draw(st.integers(0, 4)) == 0:
+        # a nearly symmetric transformation: orthogonal frame, so that S diag S^-1 is
+        # symmetric, tilted by a few 1e-6 (asymmetric within the default allclose tolerances,
+        # but a different matrix with different eigenvectors)
+        Q = np.array(draw(gen.orthogonal_matrix(N)), dtype=float)
+        tilt = np.eye(N)
+        tilt[0, N - 1] = draw(st.sampled_from([3e-6, -5e-6, 2e-7, -1e-7, 4e-8]))
+        return dict(S=(Q @ tilt).tolist(), lam=draw(eigen_spectrum(N)), nearly_symmetric=True)
     return dict(S=draw(gen.wellcond_matrix(N, maxfactor=2.0)), lam=draw(eigen_spectrum(N)))
 
 
@@ -904,6 +912,10 @@ def body_eig_complex(case, ctx):
     if kind == "complex":
         for t in range(1, len(mats)):
             lam = lams[t].copy()
+            if np.min(np.abs(lam[1:] - q)) < 0.05 * abs(q):
+                # q would sit next to another eigenvalue of this unit: a nearly defective
+                # matrix, whose eigenvectors no solver determines - leave the unit without q
+                continue
             lam[0] = q
             S = np.array([[complex(*z) for z in row] for row in case["trs"][t]["S"]])
             mats[t] = S @ np.diag(lam) @ np.linalg.inv(S)
